@@ -218,6 +218,10 @@ func cmdShapes() {
 						}
 						return true
 					})
+					if decl != nil && decl.Body != nil && sig != nil {
+						fmt.Printf("%s\t%s\t%s;outerlits=%d\n", p.cfSource, k, shapeOf(p, decl, sig), c)
+						continue
+					}
 				}
 			} else {
 				f, d := p.findFunc(k)
